@@ -311,7 +311,8 @@ def main():
       "tf.pow(2.0, integer exponent) is exact (checked implicitly: any inexact power would disagree with the model)",
       "denormal inputs are zeros to TensorFlow (DAZ, calibrated per run)",
   ]
-  return rep.finish(vlib.TRUSTED_COMMON + ["model Quant/Po2.v is hand-written; tie = comparison with the implementation on every generated case"])
+  return rep.finish(vlib.TRUSTED_COMMON + ["translators tools/translate/{po2gen,po2callgen,reportgen}.py regenerate coq/gen/{Po2Gen,Po2CallGen,ReportGen}.v; in Po2CallGen the float logarithm is an oracle parameter: the link to the model instantiates it with the exact round/floor base-2 logarithm, float32 log accuracy is checked by the banded correspondence only",
+                                          "model Quant/Po2.v is hand-written; tie = comparison with the implementation on every generated case"])
 
 
 if __name__ == "__main__":
